@@ -93,6 +93,7 @@ func applyReal(sm *sourcemap.SourceMapper, o smOp) {
 func checkSMHistory(t *fw.T, ops []smOp, label string) {
 	var model smModel
 	var res *sourcemap.SourceMap
+	readTwiceDiffers := false
 	wit := func() map[string]any {
 		o := ops
 		if len(o) > 60 {
@@ -102,12 +103,29 @@ func checkSMHistory(t *fw.T, ops []smOp, label string) {
 	}
 	ok := t.Guard("sourcemap builder", wit, func() {
 		sm := sourcemap.New()
-		for _, o := range ops {
+		// reading the map is not an operation of the history: on every third history the map is also requested in the
+		// middle (every 7th step) and twice at the end; the final map must be what the whole history produces
+		peek := len(ops)%3 == 0
+		for i, o := range ops {
 			applyReal(sm, o)
+			if peek && i%7 == 3 {
+				sm.SourceMap()
+			}
 		}
 		res = sm.SourceMap()
+		if peek {
+			t.Count("histories_with_intermediate_reads", 1)
+			if again := sm.SourceMap(); again == nil || again.Mappings != res.Mappings || strings.Join(again.Names, "\x00") != strings.Join(res.Names, "\x00") {
+				res = nil
+				readTwiceDiffers = true
+			}
+		}
 	})
 	if !ok {
+		return
+	}
+	if readTwiceDiffers {
+		t.Violate("read-not-idempotent", label, "two consecutive SourceMap() calls return different maps", wit())
 		return
 	}
 	for _, o := range ops {
